@@ -6,6 +6,7 @@ import (
 	"strings"
 
 	"verif/app"
+	"verif/codec"
 	"verif/mc"
 )
 
@@ -144,6 +145,9 @@ func c07Replay(w json.RawMessage) (string, string) {
 	if err := json.Unmarshal(w, &wit); err != nil {
 		return "bad-witness", err.Error()
 	}
+	if wit.App == "directed-deep" {
+		return c07Deep()
+	}
 	ap, ok := corpusByName(wit.App)
 	if !ok {
 		return "bad-witness", "unknown app"
@@ -152,7 +156,48 @@ func c07Replay(w json.RawMessage) (string, string) {
 	return s, m
 }
 
+// c07Deep: a directed long history at the navigation depth limit (135 descents through a 2-cycle,
+// then ascents), long-lived against persisted on mem and fs.
+func c07Deep() (string, string) {
+	build := func() *app.App {
+		a := app.New("deep")
+		a.Node("root", "root", codec.Ins{Op: codec.HALT}, codec.Ins{Op: codec.INCMP, Sym: "aa", Sel: "1"})
+		a.Node("aa", "aa", codec.Ins{Op: codec.HALT}, codec.Ins{Op: codec.INCMP, Sym: "bb", Sel: "1"}, codec.Ins{Op: codec.INCMP, Sym: "_", Sel: "0"})
+		a.Node("bb", "bb", codec.Ins{Op: codec.HALT}, codec.Ins{Op: codec.INCMP, Sym: "aa", Sel: "1"}, codec.Ins{Op: codec.INCMP, Sym: "_", Sel: "0"})
+		a.Node("_catch", "catch", codec.Ins{Op: codec.HALT}, codec.Ins{Op: codec.INCMP, Sym: "_", Sel: "*"})
+		return a
+	}
+	ll, _ := openBackend(build(), lsOpts{Mode: "long-lived"})
+	pm, cl1 := openBackend(build(), lsOpts{Mode: "persisted", Backend: "mem"})
+	pf, cl2 := openBackend(build(), lsOpts{Mode: "persisted", Backend: "fs"})
+	defer cl1()
+	defer cl2()
+	ins := []string{""}
+	for i := 0; i < 135; i++ {
+		ins = append(ins, "1")
+	}
+	for i := 0; i < 20; i++ {
+		ins = append(ins, "0")
+	}
+	for k, in := range ins {
+		b := ll.Request([]byte(in))
+		for _, t := range []*app.Session{pm, pf} {
+			r := t.Request([]byte(in))
+			if r.Panic != "" || r.Client() != b.Client() {
+				return "persisted-differs-from-long-lived-at-depth-limit", fmt.Sprintf("135 descents then ascents, request %d (depth about %d): persisted gives %s %s; long-lived gives %s", k, k, short(r.Client()), r.Panic, short(b.Client()))
+			}
+		}
+	}
+	return "", ""
+}
+
 func c07Run(c *mc.Ctx) {
+	if c.Mine() {
+		c.Count("evaluations", 1)
+		if sig, msg := c07Deep(); sig != "" {
+			c.Fail(sig, msg, c07Witness{App: "directed-deep"})
+		}
+	}
 	depth := 3
 	if c.Thorough() {
 		depth = 4
